@@ -257,6 +257,7 @@ class Interp(object):
         self.generic_depth = 0
         self.generic_lists = []
         self.executed = set()        # qualnames of repository functions whose body was executed
+        self.created = []            # objects instantiated, in order (freshness / aliasing obligations)
 
     # -- modules ---------------------------------------------------------------------------------------
     def module(self, name):
@@ -387,8 +388,22 @@ class Interp(object):
     def st_Global(self, s, env, module, func):
         raise Unsupported('global statement')
 
+    def _is_noop_block(self, body):
+        """statements without any effect on the symbolic state: warnings.warn(...), LOGGER.*(...), pass"""
+        for st in body:
+            if isinstance(st, ast.Pass):
+                continue
+            if isinstance(st, ast.Expr) and isinstance(st.value, ast.Call):
+                name = ast.unparse(st.value.func)
+                if name == 'warnings.warn' or name.startswith('LOGGER.') or name.startswith('logging.'):
+                    continue
+            return False
+        return True
+
     def st_If(self, s, env, module, func):
         c = self.ev(s.test, env, module, func)
+        if not s.orelse and self._is_noop_block(s.body) and isinstance(c, Sym):
+            return            # both outcomes lead to the same state: do not split the path (dropped: the warning)
         if values.truth(c):
             self.exec_block(s.body, env, module, func)
         else:
@@ -1046,6 +1061,10 @@ class Interp(object):
             r = b.sym_binop(self, type(op).__name__, a, True)
             if r is not NotImplemented:
                 return r
+        if (isinstance(a, GenList) and isinstance(b, (Lane, Sym, GenList))) or \
+                (isinstance(b, GenList) and isinstance(a, (Lane, Sym))):
+            a = a.lane if isinstance(a, GenList) else a
+            b = b.lane if isinstance(b, GenList) else b
         if isinstance(a, (Sym, Lane, Arr2)) or isinstance(b, (Sym, Lane, Arr2)):
             if type(op) not in self._BIN:
                 raise Unsupported('operator %s on symbolic values' % type(op).__name__)
@@ -1481,6 +1500,7 @@ class Interp(object):
             obj = self.call(nf, [cls] + list(args), kwargs)
         else:
             obj = Obj(cls)
+        self.created.append(obj)
         if isinstance(obj, Obj) and obj.cls.is_subclass(cls):
             try:
                 init, _o = obj.cls.lookup('__init__')
